@@ -54,6 +54,88 @@ class _Sink:
 
 
 # ----------------------------------------------------------------------------------------------
+# cooperative locks: so that a lock taken by the system under test cannot wedge the baton scheme.
+# Installed on `threading` before the repository is imported.  Outside a simulation, or in a thread
+# that is not a simulated client, they behave exactly like the real thing.
+
+_CURRENT_SIM = None
+_REAL_ALLOCATE = _thread.allocate_lock
+LOCK_PROBE = {"created": 0, "contended": 0}
+
+
+class SimDeadlock(BaseException):
+    """A client blocks on a lock that no runnable client can release."""
+
+
+class CoopLock:
+    def __init__(self):
+        self._real = _REAL_ALLOCATE()
+        LOCK_PROBE["created"] += 1
+
+    def acquire(self, blocking=True, timeout=-1):
+        sim = _CURRENT_SIM
+        k = sim.ident2k.get(_thread.get_ident()) if sim is not None else None
+        if k is None:
+            return self._real.acquire(blocking, timeout)
+        while True:
+            if self._real.acquire(False):
+                return True
+            if not blocking:
+                return False
+            LOCK_PROBE["contended"] += 1
+            sim.lock_contended(k)
+
+    __enter__ = acquire
+
+    def release(self):
+        self._real.release()
+
+    def __exit__(self, *a):
+        self.release()
+
+    def locked(self):
+        return self._real.locked()
+
+
+class CoopRLock:
+    def __init__(self):
+        self._block = CoopLock()
+        self._owner = None
+        self._count = 0
+
+    def acquire(self, blocking=True, timeout=-1):
+        me = _thread.get_ident()
+        if self._owner == me:
+            self._count += 1
+            return True
+        ok = self._block.acquire(blocking, timeout)
+        if ok:
+            self._owner, self._count = me, 1
+        return ok
+
+    __enter__ = acquire
+
+    def release(self):
+        if self._owner != _thread.get_ident():
+            raise RuntimeError("cannot release un-acquired lock")
+        self._count -= 1
+        if not self._count:
+            self._owner = None
+            self._block.release()
+
+    def __exit__(self, *a):
+        self.release()
+
+    def _is_owned(self):
+        return self._owner == _thread.get_ident()
+
+
+def install_coop_locks() -> None:
+    threading.Lock = CoopLock
+    threading.RLock = CoopRLock
+
+
+# ----------------------------------------------------------------------------------------------
 # marks: lines of repo code that mutate something that could be shared
 
 
@@ -262,6 +344,11 @@ class Policy:
     def after_death(self, sim) -> int:
         return sim.alive[0]
 
+    def forced(self, sim, k: int) -> int:
+        """The running client k blocks (lock contention): who runs instead."""
+        later = [a for a in sim.alive if a > k]
+        return later[0] if later else sim.alive[0]
+
     def describe(self) -> dict:
         return {"policy": self.name}
 
@@ -378,6 +465,10 @@ class Follow(Policy):
     def after_death(self, sim):
         return self._advance(sim)
 
+    def forced(self, sim, k):
+        t = self._advance(sim)
+        return t if t != k else Policy.forced(self, sim, k)
+
 
 def make_policy(rng, n_threads: int, horizon: int) -> Policy:
     kind = rng.choice(["uniform", "uniform", "pct", "pct", "rr", "serial"])
@@ -481,6 +572,18 @@ class ScheduleSim:
         self.gates[nxt].release()
         self.gates[k].acquire()
 
+    def lock_contended(self, k):
+        """Called by a cooperative lock when client k would block."""
+        self.step += 1
+        self.seg_steps += 1
+        if self.step > self.cap:
+            self.over = True
+        if self.over:
+            raise StepBudget("lock")
+        if len(self.alive) < 2:
+            raise SimDeadlock(f"client {k} blocks on a lock nobody can release")
+        self._switch(k, self.policy.forced(self, k), "<lock>", 0)
+
     def boundary(self, k):
         """Op boundary: a pre-emption point outside repository code."""
         self._event(k, True, "<boundary>", 0)
@@ -557,11 +660,13 @@ class ScheduleSim:
             outcome, raw = execute_plain(op, self.scratch)
         except StepBudget as e:
             outcome, raw = ("budget", str(e)), None
+        except SimDeadlock as e:
+            outcome, raw = ("budget", "deadlock:" + str(e)), None
         finally:
             self.inop[k] = False
             fired = injected is not None and self.abort_at[k] is None
             self.abort_at[k] = None
-        if isinstance(raw, StepBudget):
+        if isinstance(raw, StepBudget | SimDeadlock):
             outcome = ("budget", str(raw))
         rec["steps"] = self.opstep[k]
         rec["outcome"] = outcome
@@ -580,6 +685,8 @@ class ScheduleSim:
         return rec
 
     def run(self, wall: float) -> bool:
+        global _CURRENT_SIM
+        _CURRENT_SIM = self
         if mon.get_tool(TOOL) is None:
             mon.use_tool_id(TOOL, TOOL_NAME)
         mon.register_callback(TOOL, mon.events.LINE, self.on_line)
@@ -638,6 +745,7 @@ def run_schedule_task(task: dict) -> dict:
             "threads": threads,  # with at_step filled in: the literal trace
             "wall": wall,
             "over": sim.over,
+            "lock_probe": dict(LOCK_PROBE),
         }
     finally:
         shutil.rmtree(scratch, ignore_errors=True)
@@ -781,5 +889,6 @@ _MARKS: dict[str, frozenset[int]] = {}
 def init_world() -> None:
     """Called once in the pristine parent (imports the repo, never parses)."""
     global _MARKS
+    install_coop_locks()
     kernel.setup_repo_import()
     _MARKS = compute_marks()
